@@ -52,6 +52,7 @@ func runC09(c *Ctx) {
 
 	queryTable(c, "C09.query-table")
 	getTable(c, "C09.get-table")
+	aliasRule(c, "C09.alias", []string{"ctree"})
 	addAtomic(c, "C09.add-atomic")
 	ctreeExposure(c, "C09.exposure")
 	contentWriters(c, "C09.content-writers")
